@@ -1345,6 +1345,9 @@ func (m *RadioTap) LayerType() gopacket.LayerType { return LayerTypeRadioTap }
 
 func (m *RadioTap) DecodeFromBytes(data []byte, df gopacket.DecodeFeedback) error {
 	dataLen := uint16(len(data))
+	if len(data) > 0xffff {
+		dataLen = 0xffff
+	}
 	if dataLen < 8 {
 		df.SetTruncated()
 		return errors.New("RadioTap too small")
@@ -1365,7 +1368,7 @@ func (m *RadioTap) DecodeFromBytes(data []byte, df gopacket.DecodeFeedback) erro
 		// and expects all fields are packed in the first it_present.
 		// Extended bitmap will be just ignored.
 		offset += 4
-		if offset+4 > dataLen {
+		if int(offset)+4 > int(dataLen) {
 			df.SetTruncated()
 			return errors.New("RadioTap present bitmap extends beyond data")
 		}
@@ -1378,11 +1381,19 @@ func (m *RadioTap) DecodeFromBytes(data []byte, df gopacket.DecodeFeedback) erro
 	vendorNamespace := false
 	for _, present := range m.Present {
 		if radioTapNamespace {
-			rValues, newOffset := RadioTapNamespace{}.decodeRadioTapNamespace(data, offset, present)
+			rValues, newOffset, err := RadioTapNamespace{}.decodeRadioTapNamespace(data[:m.Length], offset, present)
+			if err != nil {
+				df.SetTruncated()
+				return err
+			}
 			m.RadioTapValues = append(m.RadioTapValues, rValues)
 			offset = newOffset
 		} else if vendorNamespace {
-			vValues, newOffset := VendorNamespace{}.decodeVendorNamespace(data, offset, present)
+			vValues, newOffset, err := VendorNamespace{}.decodeVendorNamespace(data[:m.Length], offset, present)
+			if err != nil {
+				df.SetTruncated()
+				return err
+			}
 			m.VendorValues = append(m.VendorValues, vValues)
 			offset = newOffset
 		} else {
@@ -1403,7 +1414,7 @@ func (m *RadioTap) DecodeFromBytes(data []byte, df gopacket.DecodeFeedback) erro
 	payload := data[m.Length:]
 
 	// Remove non standard padding used by some Wi-Fi drivers
-	if m.RadioTapValues[0].Flags.Datapad() &&
+	if m.RadioTapValues[0].Flags.Datapad() && len(payload) >= 2 &&
 		payload[0]&0xC == 0x8 { //&& // Data frame
 		headlen := 24
 		if payload[0]&0x8C == 0x88 { // QoS
@@ -1412,7 +1423,7 @@ func (m *RadioTap) DecodeFromBytes(data []byte, df gopacket.DecodeFeedback) erro
 		if payload[1]&0x3 == 0x3 { // 4 addresses
 			headlen += 2
 		}
-		if headlen%4 == 2 {
+		if headlen%4 == 2 && len(payload) >= headlen+2 {
 			payload = append(payload[:headlen], payload[headlen+2:len(payload)]...)
 		}
 	}
@@ -1437,89 +1448,150 @@ func (m *RadioTap) DecodeFromBytes(data []byte, df gopacket.DecodeFeedback) erro
 	return nil
 }
 
-func (m RadioTapNamespace) decodeRadioTapNamespace(data []byte, offset uint16, present RadioTapPresent) (RadioTapNamespace, uint16) {
+var errRadioTapFieldTruncated = errors.New("RadioTap field extends beyond header")
+
+func (m RadioTapNamespace) decodeRadioTapNamespace(data []byte, offset uint16, present RadioTapPresent) (RadioTapNamespace, uint16, error) {
+	// need reports whether n more bytes are available at the current offset
+	need := func(n int) bool { return int(offset)+n <= len(data) }
 	if present.TSFT() {
 		offset += align(offset, 8)
+		if !need(8) {
+			return m, offset, errRadioTapFieldTruncated
+		}
 		m.TSFT = binary.LittleEndian.Uint64(data[offset : offset+8])
 		offset += 8
 	}
 	if present.Flags() {
+		if !need(1) {
+			return m, offset, errRadioTapFieldTruncated
+		}
 		m.Flags = RadioTapFlags(data[offset])
 		offset++
 	}
 	if present.Rate() {
+		if !need(1) {
+			return m, offset, errRadioTapFieldTruncated
+		}
 		m.Rate = RadioTapRate(data[offset])
 		offset++
 	}
 	if present.Channel() {
 		offset += align(offset, 2)
+		if !need(4) {
+			return m, offset, errRadioTapFieldTruncated
+		}
 		m.ChannelFrequency = RadioTapChannelFrequency(binary.LittleEndian.Uint16(data[offset : offset+2]))
 		offset += 2
 		m.ChannelFlags = RadioTapChannelFlags(binary.LittleEndian.Uint16(data[offset : offset+2]))
 		offset += 2
 	}
 	if present.FHSS() {
+		if !need(2) {
+			return m, offset, errRadioTapFieldTruncated
+		}
 		m.FHSS = binary.LittleEndian.Uint16(data[offset : offset+2])
 		offset += 2
 	}
 	if present.DBMAntennaSignal() {
+		if !need(1) {
+			return m, offset, errRadioTapFieldTruncated
+		}
 		m.DBMAntennaSignal = int8(data[offset])
 		offset++
 	}
 	if present.DBMAntennaNoise() {
+		if !need(1) {
+			return m, offset, errRadioTapFieldTruncated
+		}
 		m.DBMAntennaNoise = int8(data[offset])
 		offset++
 	}
 	if present.LockQuality() {
 		offset += align(offset, 2)
+		if !need(2) {
+			return m, offset, errRadioTapFieldTruncated
+		}
 		m.LockQuality = binary.LittleEndian.Uint16(data[offset : offset+2])
 		offset += 2
 	}
 	if present.TxAttenuation() {
 		offset += align(offset, 2)
+		if !need(2) {
+			return m, offset, errRadioTapFieldTruncated
+		}
 		m.TxAttenuation = binary.LittleEndian.Uint16(data[offset : offset+2])
 		offset += 2
 	}
 	if present.DBTxAttenuation() {
 		offset += align(offset, 2)
+		if !need(2) {
+			return m, offset, errRadioTapFieldTruncated
+		}
 		m.DBTxAttenuation = binary.LittleEndian.Uint16(data[offset : offset+2])
 		offset += 2
 	}
 	if present.DBMTxPower() {
+		if !need(1) {
+			return m, offset, errRadioTapFieldTruncated
+		}
 		m.DBMTxPower = int8(data[offset])
 		offset++
 	}
 	if present.Antenna() {
+		if !need(1) {
+			return m, offset, errRadioTapFieldTruncated
+		}
 		m.Antenna = uint8(data[offset])
 		offset++
 	}
 	if present.DBAntennaSignal() {
+		if !need(1) {
+			return m, offset, errRadioTapFieldTruncated
+		}
 		m.DBAntennaSignal = uint8(data[offset])
 		offset++
 	}
 	if present.DBAntennaNoise() {
+		if !need(1) {
+			return m, offset, errRadioTapFieldTruncated
+		}
 		m.DBAntennaNoise = uint8(data[offset])
 		offset++
 	}
 	if present.RxFlags() {
 		offset += align(offset, 2)
+		if !need(2) {
+			return m, offset, errRadioTapFieldTruncated
+		}
 		m.RxFlags = RadioTapRxFlags(binary.LittleEndian.Uint16(data[offset:]))
 		offset += 2
 	}
 	if present.TxFlags() {
 		offset += align(offset, 2)
+		if !need(2) {
+			return m, offset, errRadioTapFieldTruncated
+		}
 		m.TxFlags = RadioTapTxFlags(binary.LittleEndian.Uint16(data[offset:]))
 		offset += 2
 	}
 	if present.RtsRetries() {
+		if !need(1) {
+			return m, offset, errRadioTapFieldTruncated
+		}
 		m.RtsRetries = uint8(data[offset])
 		offset++
 	}
 	if present.DataRetries() {
+		if !need(1) {
+			return m, offset, errRadioTapFieldTruncated
+		}
 		m.DataRetries = uint8(data[offset])
 		offset++
 	}
 	if present.MCS() {
+		if !need(3) {
+			return m, offset, errRadioTapFieldTruncated
+		}
 		m.MCS = RadioTapMCS{
 			RadioTapMCSKnown(data[offset]),
 			RadioTapMCSFlags(data[offset+1]),
@@ -1529,6 +1601,9 @@ func (m RadioTapNamespace) decodeRadioTapNamespace(data []byte, offset uint16, p
 	}
 	if present.AMPDUStatus() {
 		offset += align(offset, 4)
+		if !need(8) {
+			return m, offset, errRadioTapFieldTruncated
+		}
 		m.AMPDUStatus = RadioTapAMPDUStatus{
 			Reference: binary.LittleEndian.Uint32(data[offset:]),
 			Flags:     RadioTapAMPDUStatusFlags(binary.LittleEndian.Uint16(data[offset+4:])),
@@ -1538,6 +1613,9 @@ func (m RadioTapNamespace) decodeRadioTapNamespace(data []byte, offset uint16, p
 	}
 	if present.VHT() {
 		offset += align(offset, 2)
+		if !need(12) {
+			return m, offset, errRadioTapFieldTruncated
+		}
 		m.VHT = RadioTapVHT{
 			Known:     RadioTapVHTKnown(binary.LittleEndian.Uint16(data[offset:])),
 			Flags:     RadioTapVHTFlags(data[offset+2]),
@@ -1556,10 +1634,16 @@ func (m RadioTapNamespace) decodeRadioTapNamespace(data []byte, offset uint16, p
 	}
 	if present.Timestamp() {
 		offset += align(offset, 8)
+		if !need(12) {
+			return m, offset, errRadioTapFieldTruncated
+		}
 		offset += 12
 	}
 	if present.HE() {
 		offset += align(offset, 2)
+		if !need(12) {
+			return m, offset, errRadioTapFieldTruncated
+		}
 		m.HE = RadiotapHE{
 			Data1: RadiotapHEData1(binary.LittleEndian.Uint16(data[offset:])),
 			Data2: RadiotapHEData2(binary.LittleEndian.Uint16(data[offset+2:])),
@@ -1571,12 +1655,15 @@ func (m RadioTapNamespace) decodeRadioTapNamespace(data []byte, offset uint16, p
 		offset += 12
 	}
 
-	return m, offset
+	return m, offset, nil
 }
 
-func (v VendorNamespace) decodeVendorNamespace(data []byte, offset uint16, present RadioTapPresent) (VendorNamespace, uint16) {
+func (v VendorNamespace) decodeVendorNamespace(data []byte, offset uint16, present RadioTapPresent) (VendorNamespace, uint16, error) {
 	offset += align(offset, 2)
 
+	if int(offset)+8 > len(data) {
+		return v, offset, errRadioTapFieldTruncated
+	}
 	v.OUI = data[offset : offset+3]
 	offset += 4
 
@@ -1586,10 +1673,13 @@ func (v VendorNamespace) decodeVendorNamespace(data []byte, offset uint16, prese
 	v.SkipLength = binary.LittleEndian.Uint16(data[offset:])
 	offset += 2
 
+	if int(offset)+int(v.SkipLength) > len(data) {
+		return v, offset, errRadioTapFieldTruncated
+	}
 	v.Contents = data[offset : offset+v.SkipLength]
 	offset += v.SkipLength
 
-	return v, offset
+	return v, offset, nil
 }
 
 func (m RadioTap) SerializeTo(b gopacket.SerializeBuffer, opts gopacket.SerializeOptions) error {
